@@ -146,12 +146,22 @@ PROPS.update({
         assumptions=["packed bits are compared, never (mant, exp) pairs"]),
 })
 
+PROPS.update({
+    "C19": dict(
+        sub="c19", cfgs=["D", "C"],
+        rule="all seven shipped copies of the front-end are compiled from the repository sources (build.rs cuts each file to helpers + parse_float and asserts that nothing else was edited) and run on every input; an independent longest-prefix recogniser of the grammar gives the consumed length, the sign and the exact decimal value, which the exact oracle turns into the expected bits (NaN/inf for the special literals of the fuzz/test copies). No panic on any input. Non-trivial: longer than 2 bytes.",
+        exhaustive_over={"quick": "TEXT(6): every byte string of length <= 6 over {+ - 0 1 9 . e E x NUL 0xFF} (1.95 M); every case variant of nan/inf/infinity x sign x 7 suffixes + near misses; structured product sign x 8 integers x 8 fractions x 14 exponents (incl. beyond i32) x 8 suffixes (21.5 k); 7 copies x f32/f64",
+                         "thorough": "TEXT(7) (21 M)"},
+        assumptions=ASSUME_EXACT[:1] + ["the grammar is the one in the property statement; the reference recogniser is independent code"]),
+})
+
 NOT_APPLICABLE = {}
 
 _VALUE_NOTE = ("trusted: the exact oracle in harness/core (naturals with multiply/shift/compare only), rustc, the host FPU for the crate's own fast path; "
                "bounded: f64 midpoints outside the pattern set, significands outside SEAM/HARD per exponent, digit strings beyond 10^6 are not enumerated")
 
 MANIFEST_TEXT = {
+    "C19": dict(level="Every short byte string over an 11-byte alphabet that contains each syntactic role, plus special-literal and structured products, through all seven copies compiled from the repository; reference grammar + exact oracle.", design_ref="DESIGN.md 4/C19", note="strings longer than 6 (7) bytes only through the structured product", technique="bounded-exhaustive string enumeration on the real front-end copies against a reference recogniser + exact oracle"),
     "C11": dict(level="The stage is driven directly through its public entry point on a structured and a number-theoretic (w,q,flag) family in both implementations; every definite answer is verified exactly, including the interval condition for truncated significands.", design_ref="DESIGN.md 4/C11", note="w outside the structured/HARD sets is not enumerated (2^64 per exponent)", technique="bounded-exhaustive enumeration of stage inputs on the real code, exact interval oracle"),
     "C12": dict(level="Each operation is compared with naturals on an operand family built to put carries, zero limbs and the capacity edge at every position; pow and shl are complete over their exponent ranges.", design_ref="DESIGN.md 4/C12", note="operand values outside the LIMBS family are not enumerated", technique="bounded-exhaustive operand enumeration against a natural-number reference model"),
     "C13": dict(level="All operation histories up to the stated depth over a 30-letter (resp. 12-letter) alphabet are executed on the real vectors against a reference sequence, without state merging so stale buffer contents cannot hide.", design_ref="DESIGN.md 4/C13", note="depth bound; limb values {0,1,MAX} and fixed extension contents", technique="exhaustive operation-history enumeration (depth-bounded) against a reference model"),
